@@ -1,10 +1,25 @@
-(* C11, not a property obligation: the known finding recorded in known_findings.json
-   (signature partial-effect:user_create_with_email:Set:useremail).  auth.Authenticator.Save writes the
-   principal document and THEN the e-mail index document; if the second write fails the caller gets an error
-   although the principal is stored (and carries the sequence allocated for it).  In the model this is a
-   [PostErr] operation; with one in the trace "error => primary state unchanged" is false. *)
-From SG Require Import Base.Prelude C11.Atomicity C11.AtomicityProofs.
+(* C11, not property obligations: the findings about the unchanged code, modelled faithfully.
+
+   (1) known finding recorded in known_findings.json (signature
+   partial-effect:user_create_with_email:Set:useremail).  auth.Authenticator.Save writes the principal document
+   and THEN the e-mail index document; if the second write fails the caller gets an error although the principal
+   is stored (and carries the sequence allocated for it).  In the model this is a [PostErr] operation; with one
+   in the trace "error => primary state unchanged" is false.
+
+   (2) finding of the deepening round (signature swallowed-failure:principal-invalidation-after-commit).
+   db/crud.go updateAndReturnDoc calls MarkPrincipalsChanged after the document commit; the invalidation of each
+   principal whose access the new revision changed (invalUserChannels / invalRoleChannels / invalUserRoles in
+   db/database.go) only LOGS a storage error.  The write is acknowledged, the document is stored, but the
+   principal keeps its cached channel / role set: a revocation (or grant) made by the acknowledged write is not
+   visible to subsequent reads of the principal until an unrelated invalidation.  In the model this is an
+   [Inval] operation; with a fault on it "success => the whole effect is visible" is false. *)
+From SG Require Import Base.Prelude C11.Atomicity C11.AtomicityProofs C11.MultiProofs.
 
 Lemma C11_error_implies_unchanged_refuted :
   exists tr k, snd (run_request tr [k]) = RErr /\ committed (fst (run_request tr [k])) = true.
 Proof. exact posterr_reports_failure_after_commit. Qed.
+
+Lemma C11_success_implies_whole_effect_visible_refuted :
+  exists tr k, no_posterr tr /\ snd (run_request tr [k]) = ROk /\ committed (fst (run_request tr [k])) = true /\
+               effect_visible (fst (run_request tr [k])) = false.
+Proof. exact inval_failure_swallowed. Qed.
